@@ -17,6 +17,7 @@
 // close_notify per direction.  The C06 state invariants are asserted after
 // every engine call (tls_endpoints.hpp).
 #include "common/tls_session.hpp"
+#include "common/tls_mbed.hpp"
 #include <time.h>
 
 using namespace vf;
@@ -122,10 +123,12 @@ void target_run(Tape &t)
 {
 	// ---------------------------------------------------------------- decode
 	unsigned psel = t.u8();
-	int pairing = psel < 154 ? 0 : psel < 205 ? 1 : 2;   // 0 BB, 1 bear client/openssl server, 2 openssl client/bear server
+	// 0 BB, 1 bear client/openssl server, 2 openssl client/bear server, 3 bear client/mbedtls server, 4 mbedtls client/bear server
+	int pairing = psel < 104 ? 0 : psel < 154 ? 3 + (int)(psel & 1) : psel < 205 ? 1 : 2;
+	bool foreign_server = pairing == 1 || pairing == 3, foreign_client = pairing == 2 || pairing == 4;
 	std::vector<const wt::SuiteInfo *> pool;
 	for (size_t i = 0; i < wt::NSUITES; i++)
-		if (pairing == 0 || ossl_suite_name(wt::SUITES[i].id)) pool.push_back(&wt::SUITES[i]);
+		if (pairing == 0 || (pairing <= 2 ? ossl_suite_name(wt::SUITES[i].id) != nullptr : mbed_has_suite(wt::SUITES[i].id))) pool.push_back(&wt::SUITES[i]);
 	const wt::SuiteInfo *si = pool[t.u8() % pool.size()];
 	unsigned version = si->tls12_only ? 0x0303 : 0x0301 + t.u8() % 3;
 	if (si->tls12_only) (void)t.u8();
@@ -146,8 +149,30 @@ void target_run(Tape &t)
 	ss.cls = c == 0 ? 4 : cs.cls + (int)((c - 1) % (5 - cs.cls));   // server input holds the client's largest record
 	j = t.u8();
 	ss.extra = j % 4 == 0 ? 0 : j % 4 == 1 ? 1 : j % 4 == 2 ? (size_t)(j >> 2) : (size_t)(j >> 2) * 67;
-	if (pairing == 1) { ss.cls = 4; }
-	if (pairing == 2) { cs.cls = 4; }
+	if (foreign_server) { ss.cls = 4; }
+	if (foreign_client) { cs.cls = 4; }
+	// an mbedTLS client asks for a maximum fragment length of its own choosing (code 1..4 = 512..4096)
+	int mbed_mfl_code = pairing == 4 ? (int)(t.u8() % 8) : 0;
+	if (mbed_mfl_code > 4) mbed_mfl_code = 0;
+	if (pairing >= 3) {
+		// mbedTLS 2.28 neither reassembles a handshake message that spans records nor splits its own:
+		// the BearSSL side must be able to emit (server) / take in (client) the certificate-bearing flight in one
+		// record, so its buffers - and the length an mbedTLS client asks for - are raised to that size
+		// (fragmented handshake messages are exercised with the other two peers)
+		const br_x509_certificate *chain = key == K_RSA ? FX_RSA_CHAIN : key == K_EC ? FX_EC_CHAIN : FX_ECRSA_CHAIN;
+		// (BearSSL packs ServerHello, Certificate, ServerKeyExchange and ServerHelloDone into one byte stream cut
+		// at the fragment length, so the whole flight has to fit: at most 4+70+64 bytes of ServerHello, 4+4+133+4+512
+		// of ServerKeyExchange and 4 of ServerHelloDone besides the chain)
+		size_t certmsg = 4 + 3 + (3 + chain[0].data_len) + (3 + chain[1].data_len) + 138 + 657 + 4;
+		Side &bs_ = pairing == 3 ? cs : ss;
+		for (;;) {
+			Profile pp; size_profile(pp, bs_);
+			size_t i_, o_; io_sizes(pp, i_, o_);
+			if (ref_mfl(i_, o_) >= certmsg || bs_.cls >= 4) break;
+			bs_.cls++;
+		}
+		while (mbed_mfl_code && ((size_t)256 << mbed_mfl_code) < certmsg) if (++mbed_mfl_code > 4) mbed_mfl_code = 0;
+	}
 
 	Profile cp, sp;
 	cp.suites = { si->id }; sp.suites = { si->id };
@@ -165,8 +190,8 @@ void target_run(Tape &t)
 	io_sizes(cp, ci, co);
 	io_sizes(sp, sI, so);
 	size_t cmfl = ref_mfl(ci, co), smfl = ref_mfl(sI, so);
-	if (pairing == 1) smfl = 16384;
-	if (pairing == 2) cmfl = 16384;
+	if (foreign_server) smfl = 16384;
+	if (foreign_client) cmfl = mbed_mfl_code ? (size_t)256 << mbed_mfl_code : 16384;
 	// limit in force per sending side after negotiation (client asks when < 16384)
 	size_t c_eff = cmfl, s_eff = cmfl < 16384 ? (smfl < cmfl ? smfl : cmfl) : smfl;
 	// a BearSSL server bigger than the client's records: fine.  A BearSSL
@@ -198,6 +223,10 @@ void target_run(Tape &t)
 		o->max_send_fragment = c_eff < smfl ? c_eff : smfl;
 		if (sI < 16384 + 325) SSL_set_max_send_fragment(o->ssl, (long)(sI - 325 < 512 ? 512 : sI - 325));
 		cl.reset(o);
+	} else if (pairing == 4) {
+		auto *m = new MbedEndpoint(true, cp, fnv(cp.entropy.data(), 32), mbed_mfl_code);
+		m->max_send_fragment = c_eff < smfl ? c_eff : smfl;
+		cl.reset(m);
 	} else {
 		bc = new BearClient(cp);
 		cl.reset(bc);
@@ -206,6 +235,7 @@ void target_run(Tape &t)
 			(unsigned)bc->eng->max_frag_len, cmfl, ci, co);
 	}
 	if (pairing == 1) sv.reset(new OsslEndpoint(false, sp));
+	else if (pairing == 3) sv.reset(new MbedEndpoint(false, sp, fnv(sp.entropy.data(), 32)));
 	else {
 		bs = new BearServer(sp);
 		sv.reset(bs);
@@ -234,12 +264,15 @@ void target_run(Tape &t)
 	std::string script_desc;
 	for (int side = 0; side < 2; side++) {
 		size_t eff = side == 0 ? c_eff : s_eff;
+		unsigned empties = 0;
 		for (unsigned i = 0; i < nw[side]; i++) {
 			Item it;
 			it.kind = IT_WRITE;
 			it.len = draw_write_len(t, eff);
 			if (total + it.len > budget) it.len = 1 + it.len % 23;
 			if (it.len == 0 && !ep_is_bear(side == 0 ? cl.get() : sv.get())) it.len = 1;
+			// mbedTLS treats a fourth consecutive empty record as a denial-of-service attempt
+			if (it.len == 0 && pairing >= 3 && ++empties > 3) it.len = 1;
 			total += it.len;
 			it.flush = (t.u8() & 3) != 0;
 			S.script[side].push_back(it);
@@ -251,7 +284,8 @@ void target_run(Tape &t)
 	S.script[closer].push_back(Item{ IT_CLOSE, 0, true });
 
 	std::string desc = fmt("%s %s TLS%s (c %s-%s, s %s-%s) key=%d | client %s%s cls=%zu(+%zu) | server %s%s cls=%zu(+%zu) | wire %s/%s in %s/%s app %s%s | %sclose by %s",
-		pairing == 0 ? "bear<->bear" : pairing == 1 ? "bear-client<->openssl-server" : "openssl-client<->bear-server",
+		pairing == 0 ? "bear<->bear" : pairing == 1 ? "bear-client<->openssl-server" : pairing == 2 ? "openssl-client<->bear-server" :
+		pairing == 3 ? "bear-client<->mbedtls-server" : mbed_mfl_code ? "mbedtls-client(mfln)<->bear-server" : "mbedtls-client<->bear-server",
 		si->name, ver_name(version), ver_name(cp.vmin), ver_name(cp.vmax), ver_name(sp.vmin), ver_name(sp.vmax), (int)key,
 		cs.esp ? "esp," : "", cs.layout == L_MONO ? "mono" : cs.layout == L_BIDI ? "bidi" : "split", cmfl, cs.extra,
 		ss.esp ? "esp," : "", ss.layout == L_MONO ? "mono" : ss.layout == L_BIDI ? "bidi" : "split", smfl, ss.extra,
@@ -278,6 +312,12 @@ void target_run(Tape &t)
 				sid[side].assign(pp.session_id, pp.session_id + pp.session_id_len);
 				VF_CHECK(br_ssl_engine_get_version(be->eng) == pp.version, "%s: get_version disagrees with session parameters", desc.c_str());
 				VF_CHECK(br_ssl_key_export(be->eng, ek[side], 40, "EXPERIMENTAL verif", label_ctx, 16) == 1, "%s: key export refused", desc.c_str());
+			} else if (pairing >= 3) {
+				MbedEndpoint *me = static_cast<MbedEndpoint *>(e);
+				ver[side] = me->version();
+				suite[side] = me->suite();
+				sid[side] = me->session_id();
+				VF_CHECK(me->key_export(ek[side], 40, "EXPERIMENTAL verif", label_ctx, 16), "harness: mbedtls export");
 			} else {
 				OsslEndpoint *oe = static_cast<OsslEndpoint *>(e);
 				ver[side] = (unsigned)SSL_version(oe->ssl);
@@ -349,7 +389,10 @@ void target_run(Tape &t)
 		stats.cls("context-reused-for-a-second-connection");
 	}
 	bool nontriv = S.sent[0] > 0 && S.sent[1] > 0 && S.cuts_inside_record > 0;
-	stats.cls(pairing == 0 ? "pairing:bear-bear" : pairing == 1 ? "pairing:bearclient-openssl" : "pairing:openssl-bearserver");
+	stats.cls(pairing == 0 ? "pairing:bear-bear" : pairing == 1 ? "pairing:bearclient-openssl" : pairing == 2 ? "pairing:openssl-bearserver" :
+		pairing == 3 ? "pairing:bearclient-mbedtls" : "pairing:mbedtls-bearserver");
+	if (pairing >= 3 && (si->kx == wt::KX_ECDH_RSA || si->kx == wt::KX_ECDH_ECDSA)) stats.cls("foreign-peer:static-ecdh-suite");
+	if (mbed_mfl_code) stats.cls("foreign-peer:mbedtls-client-requests-mfln");
 	stats.cls(std::string("version:") + ver_name(version));
 	stats.cls(std::string("mode:") + (wt::is_cbc(si->cipher) ? "cbc" : wt::is_gcm(si->cipher) ? "gcm" : wt::is_ccm(si->cipher) ? "ccm" : "chapol"));
 	stats.cls(fmt("client:%s", cs.layout == L_MONO ? "mono" : cs.layout == L_BIDI ? "bidi" : "split"));
